@@ -49,6 +49,7 @@ def check(repo, res, tier):
     t6(repo, res, canon, pc)
     t10(repo, res, logic)
     t12(repo, res, canon, logic)
+    t14(repo, res, canon, logic)
     t2b(repo, res, canon, logic)
     from . import c11, c19
     borrow(repo, res, tier, c19, {'C19.K', 'C19.F'}, 'C04.T4')
@@ -161,6 +162,72 @@ def t2b(repo, res, canon, logic):
                                       '%d completion path(s)' % n if ok and n else
                                       'a task whose work has ended and whose machine was taken back is not marked FINISHED: it '
                                       'never leaves the plan and the workflow never closes')
+
+
+def t14(repo, res, canon, logic):
+    """The scheduler actor is alive for the whole run: it is switched to the status its loop insists
+    on before the loop is registered, and the loop is left only on shutdown with nothing queued."""
+    res.rule('C04.T14', 'Scheduler.start writes the status Scheduler.run insists on, Simulation.start calls it before it '
+                        'registers the loop, and the loop is left only with an empty queue on shutdown')
+    run = repo.func('Scheduler.run')
+    rfr = Frame(run)
+    loops = [st for st in run.node.body if isinstance(st, ast.While)]
+    if not loops:
+        res.bad('C04.T14', run, None, 'Scheduler.run has no top-level loop', 'the scheduler actor has no process loop')
+        return
+    lp = loops[0]
+    # the status the entry guard insists on: `if self.status is not X: raise`
+    need = None
+    for p in cached_paths(run):
+        if p.exit != 'raise':
+            continue
+        for e in p.events:
+            if e.kind == 'test':
+                tn, tp = e.node, e.pol
+                while isinstance(tn, ast.UnaryOp) and isinstance(tn.op, ast.Not):
+                    tn, tp = tn.operand, not tp
+                if isinstance(tn, ast.Compare) and len(tn.ops) == 1 and canon.c(tn.left, rfr) == 'Scheduler.status':
+                    eq = isinstance(tn.ops[0], (ast.Is, ast.Eq))
+                    if eq != tp:           # raises when status differs from the comparator
+                        need = canon.c(tn.comparators[0], rfr)
+            if e.kind in ('loop',):
+                break
+    st = repo.func('Scheduler.start')
+    if need is not None:
+        writes = [n for n in walk_no_nested(st.node) if isinstance(n, ast.Assign) and canon.c(n.targets[0], Frame(st)) == 'Scheduler.status']
+        okw = bool(writes) and all(canon.c(n.value, Frame(st)) == need for n in writes)
+        (res.ok if okw else res.bad)('C04.T14', st, writes[0] if writes else None, 'Scheduler.start sets status = %s' % need,
+                                     'ok' if okw else 'Scheduler.start does not put the scheduler into the status %s that Scheduler.run '
+                                     'insists on: the scheduler process raises as soon as it is started' % need)
+        sim = repo.func('Simulation.start')
+        sfr = Frame(sim)
+        order = []
+        for n in ast.walk(sim.node):
+            if isinstance(n, ast.Call) and isinstance(n.func, ast.Attribute) and n.func.attr in ('start', 'run') \
+                    and canon.c(n.func.value, sfr) in ('Scheduler', 'Simulation.scheduler'):
+                order.append((n.lineno, n.col_offset, n.func.attr))
+        order.sort()
+        oks = [a for _, _, a in order][:2] == ['start', 'run']
+        (res.ok if oks else res.bad)('C04.T14', sim, None, 'Simulation.start: scheduler.start() before scheduler.run() is registered',
+                                     'ok' if oks else 'Simulation.start registers the scheduler loop without having started the scheduler '
+                                     '(order found: %s): the loop raises at once' % [a for _, _, a in order])
+    else:
+        res.ok('C04.T14', run, None, 'Scheduler.run has no entry guard on its status', 'nothing to agree with')
+    ok, why, n = True, '', 0
+    for seg, how in iteration_segments(run, lp):
+        if how not in ('break', 'return', 'fall'):
+            continue
+        n += 1
+        class _P:
+            events = seg
+        must = path_must(logic, _P, depth=0)
+        empty_q = any((l.atom in ('truthy(%s)' % QUEUE,) and not l.pol) or (l.atom == 'empty(%s)' % QUEUE and l.pol) for l in must)
+        shut = any(l.pol and 'SchedulerStatus.SHUTDOWN' in l.atom and 'Scheduler.status' in l.atom for l in must)
+        if not (empty_q and shut):
+            ok, why = False, ('the scheduler loop is left on a path that has not established "nothing queued and shut down": the '
+                              'scheduler stops while observations are still to come and nothing more is ever processed')
+    (res.ok if ok else res.bad)('C04.T14', run, lp, 'the scheduler loop is left only on shutdown with an empty queue',
+                                '%d leaving path(s)' % n if ok else why)
 
 
 def t12(repo, res, canon, logic):
@@ -367,6 +434,10 @@ def t2(repo, res, canon, pc, logic):
                 must = path_must(logic, p, i)
                 if Lit('TaskStatus.UNSCHEDULED == %s.task_status' % T, True) not in must:
                     guard = False
+                if Lit('TaskStatus.UNSCHEDULED == %s.task_status' % T, False) in must:
+                    res.bad('C04.T2', s, sp, 'only tasks that are NOT unscheduled reach the cluster',
+                            'the submission is reached only on paths where the task is known not to be UNSCHEDULED (the guard '
+                            'is inverted): every valid proposal raises, nothing ever runs')
     algs_ok = True
     from .c03 import ALGS, store_sites
     for q in ALGS:
@@ -523,6 +594,20 @@ def t3(repo, res, canon, pc, logic):
             if not (empty_sched and fin):
                 ok, why = False, ('the workflow is closed (queue.remove) on a path that has not established '
                                   '"nothing left to allocate and status FINISHED"')
+            # ... and the path that closes the workflow tells its caller so (the allocation loop
+            # ends only on that verdict)
+            from ..skel import _track_consts, _subst
+            cenv = {}
+            verdict = None
+            for x in p.events:
+                if x.kind == 'stmt' and isinstance(x.node, (ast.Assign, ast.AugAssign, ast.AnnAssign)):
+                    _track_consts(x.node, cenv)
+                if x.kind == 'stmt' and isinstance(x.node, ast.Return) and isinstance(x.node.value, ast.Tuple) \
+                        and len(x.node.value.elts) == 4:
+                    verdict = _subst(x.node.value.elts[3], cenv)
+            if verdict is not None and isinstance(verdict, ast.Constant) and verdict.value is not True:
+                ok, why = False, ('the path that closes the workflow returns finished=%r: the allocation loop never learns that '
+                                  'the workflow is done and spins for ever' % verdict.value)
             rels = [x for x in p.events[:i] if stmt_contains(
                 x, lambda y: isinstance(y, ast.Call) and call_name(y) == 'release_batch_resources'
                 and y.args and pc.p(y.args[0], gfr) in ('%s.name' % g.params[1], '%s.id' % g.params[2]))]
